@@ -462,6 +462,8 @@ fn mutated_valid_strategy() -> impl Strategy<Value = Hex> {
 fn preamble() -> Result<(), String> {
     // The reference encoder (used to obtain headers with an arbitrary status and by C27) must agree
     // with the real writers on fixed values; otherwise the harness is out of date: exit 2, not a verdict.
+    // This is only concluded when the real writer and reader agree with each other on the value — if
+    // they do not, that is the property's business and the bulk search reports it.
     let m = MManifest {
         not_after: MTime { secs: 1_759_335_022, nanos: 0 },
         number: Hex(vec![0; 20]),
@@ -471,28 +473,31 @@ fn preamble() -> Result<(), String> {
         crl_uri: "rsync://example.com/test/test.crl".into(),
         crl: MBytes::of(b"crlbytesgohere"),
     };
-    let mut b = Vec::new();
-    m.to_real().write(&mut b).map_err(|e| e.to_string())?;
-    if b != enc_manifest(&m).data {
-        return Err("reference manifest encoding differs from StoredManifest::write".into());
-    }
     let o = MObject { uri: "rsync://example.com/test/obj1.bin".into(), hash: Some(Hex(vec![7; 32])), content: MBytes::of(b"object1content") };
-    let mut b = Vec::new();
-    o.to_real().write(&mut b).map_err(|e| e.to_string())?;
-    if b != enc_object(&o).data {
-        return Err("reference object encoding differs from StoredObject::write".into());
-    }
     let t = MTime { secs: 1_700_000_000, nanos: 0 };
-    let mut b = Vec::new();
-    status_of(&t).write(&mut b).map_err(|e| e.to_string())?;
-    if b != enc_status(&t).data {
-        return Err("reference status encoding differs from StoredStatus::write".into());
-    }
     let s = MState { notify: "https://foo.bar/baz".into(), session: Hex(vec![0xa1; 16]), serial: 0x1234567812345678, updated: -12, best_before: 123789123789123, last_modified: Some(239123908123), etag: Some(MBytes::of(b"W/\"x\"")), deltas: vec![(18, 3)] };
-    let mut b = Vec::new();
-    s.to_real().verif_compose(&mut b).map_err(|e| e.to_string())?;
-    if b != enc_state(&s).data {
-        return Err("reference state encoding differs from RepositoryState::compose".into());
+    let mut info = CaseInfo::default();
+    for (what, rec, reference) in [
+        ("manifest", AnyRec::Manifest(m.clone()), enc_manifest(&m).data),
+        ("object", AnyRec::Object(o.clone()), enc_object(&o).data),
+        ("status", AnyRec::Status(t), enc_status(&t).data),
+        ("state", AnyRec::State(s.clone()), enc_state(&s).data),
+    ] {
+        if !matches!(judge_sequence(std::slice::from_ref(&rec), &mut info), Verdict::Pass) {
+            continue; // writer and reader disagree with each other: left to the bulk search
+        }
+        let mut b = Vec::new();
+        let r = match &rec {
+            AnyRec::Manifest(m) => m.to_real().write(&mut b),
+            AnyRec::Object(o) => o.to_real().write(&mut b),
+            AnyRec::Status(t) => status_of(t).write(&mut b),
+            AnyRec::State(s) => s.to_real().verif_compose(&mut b),
+            _ => Ok(()),
+        };
+        r.map_err(|e| e.to_string())?;
+        if b != reference {
+            return Err(format!("reference {} encoding differs from the real writer (which round-trips)", what));
+        }
     }
     for success in [true, false] {
         let h = MHeader { uri: "rsync://example.com/test/test.mft".into(), notify: Some("https://example.com/notification.xml".into()), success, secs: 1_700_000_000 };
@@ -500,8 +505,9 @@ fn preamble() -> Result<(), String> {
         let v = StoredPointHeader::read(&mut enc.as_slice()).map_err(|e| format!("reference header rejected: {}", e))?;
         let mut b = Vec::new();
         v.write(&mut b).map_err(|e| e.to_string())?;
-        if b != enc {
-            return Err("reference header encoding differs from StoredPointHeader::write".into());
+        let again = StoredPointHeader::read(&mut b.as_slice());
+        if matches!(again, Ok(ref a) if *a == v) && b != enc {
+            return Err("reference header encoding differs from StoredPointHeader::write (which round-trips)".into());
         }
     }
     Ok(())
